@@ -597,6 +597,114 @@ func (e *Exec) call(fn uint32, args []*Tree, ptrArgs []ptr, depth int) *Tree {
 		case 255: // OpUnreachable
 			zz.Fail("OpUnreachable executed")
 			return nil
+		case 204: // OpBitReverse
+			un(rev32)
+		case 205: // OpBitCount
+			un(popc32)
+		case 201, 202, 203: // OpBitFieldInsert / OpBitFieldSExtract / OpBitFieldUExtract
+			nOps := 3
+			if in.Op == 201 {
+				nOps = 4
+			}
+			ops := make([]*Tree, nOps)
+			for k := range ops {
+				ops[k] = val(w[2+k])
+			}
+			base := ops[0]
+			r := &Tree{Leaf: make([]uint32, len(base.Leaf))}
+			off, cnt := ops[nOps-2].Leaf[0], ops[nOps-1].Leaf[0]
+			zz.Assert(off <= 32 && cnt <= 32 && off+cnt <= 32, "OpBitField* with offset + count > 32: the result is undefined")
+			for i := range base.Leaf {
+				if off > 32 || cnt > 32 || off+cnt > 32 {
+					continue
+				}
+				switch in.Op {
+				case 201:
+					mask := uint32((uint64(1)<<cnt - 1) << off)
+					r.Leaf[i] = base.Leaf[i]&^mask | uint32(uint64(ops[1].Leaf[i])<<off)&mask
+				default:
+					v := uint32((uint64(base.Leaf[i]) >> off) & (uint64(1)<<cnt - 1))
+					if in.Op == 202 && cnt > 0 && cnt < 32 {
+						sh := 32 - cnt
+						v = uint32(int32(v<<sh) >> sh)
+					}
+					r.Leaf[i] = v
+				}
+			}
+			fr.env[w[1]] = r
+		case 12: // OpExtInst (GLSL.std.450)
+			inst := w[3]
+			args := make([]*Tree, len(w)-4)
+			for k := range args {
+				args[k] = val(w[4+k])
+			}
+			n := len(args[0].Leaf)
+			r := &Tree{Leaf: make([]uint32, n)}
+			at := func(k, i int) uint32 {
+				if k < len(args) && i < len(args[k].Leaf) {
+					return args[k].Leaf[i]
+				}
+				return 0
+			}
+			for i := 0; i < n; i++ {
+				a, b, c := at(0, i), at(1, i), at(2, i)
+				switch inst {
+				case 5: // SAbs
+					m := uint32(int32(a) >> 31)
+					r.Leaf[i] = (a ^ m) - m
+				case 38: // UMin
+					r.Leaf[i] = a
+					if b < a {
+						r.Leaf[i] = b
+					}
+				case 39: // SMin
+					r.Leaf[i] = a
+					if int32(b) < int32(a) {
+						r.Leaf[i] = b
+					}
+				case 41: // UMax
+					r.Leaf[i] = a
+					if b > a {
+						r.Leaf[i] = b
+					}
+				case 42: // SMax
+					r.Leaf[i] = a
+					if int32(b) > int32(a) {
+						r.Leaf[i] = b
+					}
+				case 44: // UClamp: min(max(x, lo), hi); undefined if lo > hi
+					zz.Assert(b <= c, "UClamp with minVal > maxVal: undefined")
+					v := a
+					if v < b {
+						v = b
+					}
+					if v > c {
+						v = c
+					}
+					r.Leaf[i] = v
+				case 45: // SClamp
+					zz.Assert(int32(b) <= int32(c), "SClamp with minVal > maxVal: undefined")
+					v := a
+					if int32(v) < int32(b) {
+						v = b
+					}
+					if int32(v) > int32(c) {
+						v = c
+					}
+					r.Leaf[i] = v
+				case 73: // FindILsb: -1 for 0
+					tz := ctz32(a)
+					r.Leaf[i] = tz | -(tz >> 5)
+				case 74: // FindSMsb: for negative values the most significant 0 bit; -1 for 0 and -1
+					r.Leaf[i] = 31 - clz32(a^uint32(int32(a)>>31))
+				case 75: // FindUMsb: -1 for 0
+					r.Leaf[i] = 31 - clz32(a)
+				default:
+					zz.Fail(fmt.Sprintf("reference SPIR-V executor: GLSL.std.450 instruction %d not modelled", inst))
+					return nil
+				}
+			}
+			fr.env[w[1]] = r
 		case 224, 225: // OpControlBarrier, OpMemoryBarrier
 		case 8: // OpLine
 		default:
@@ -697,4 +805,33 @@ func Flatten(t *Tree, out []uint32) []uint32 {
 		out = Flatten(k, out)
 	}
 	return out
+}
+
+// bit counting by sum / smear (the reference closures of the templates are written bit by
+// bit and by binary search)
+func popc32(x uint32) uint32 {
+	var n uint32
+	for i := uint(0); i < 32; i++ {
+		n += x >> i & 1
+	}
+	return n
+}
+
+func clz32(x uint32) uint32 {
+	x |= x >> 1
+	x |= x >> 2
+	x |= x >> 4
+	x |= x >> 8
+	x |= x >> 16
+	return 32 - popc32(x)
+}
+
+func ctz32(x uint32) uint32 { return popc32((x & -x) - 1) }
+
+func rev32(x uint32) uint32 {
+	x = x>>1&0x55555555 | x&0x55555555<<1
+	x = x>>2&0x33333333 | x&0x33333333<<2
+	x = x>>4&0x0F0F0F0F | x&0x0F0F0F0F<<4
+	x = x>>8&0x00FF00FF | x&0x00FF00FF<<8
+	return x>>16 | x<<16
 }
